@@ -34,7 +34,7 @@ PROPERTIES["C19"] = {
                     "Map[string,int] instantiation; callbacks range over threshold/affine/key-equality families with symbolic parameters"],
     "runs": [Run("orderedmap", ["./internal/orderedmap"],
                  {"internal/orderedmap/zz_verif_c19.go": "harness/orderedmap/zz_verif_c19.go"},
-                 ["VerifC19Step", "VerifC19History", "VerifC19JSONHistory", "VerifC19JSONDocs"], "internal/orderedmap", panics="violation")],
+                 ["VerifC19Step", "VerifC19History", "VerifC19JSONHistory", "VerifC19JSONDocs", "VerifC19SortStability"], "internal/orderedmap", panics="violation")],
 }
 
 
@@ -94,9 +94,9 @@ PROPERTIES["C18"] = {
                   "of the receiver type is built from its declared fields (every leaf a solver variable, every pointer/slice/map populated down to the depth bound; "
                   "nil-ness and lengths forked at the top level), the real DeepCopy is executed with the receiver frozen, and the solver decides (i) field-wise "
                   "equality of copy and original in every declared field (dynamic types included) and the engine decides (ii) that copy and original share no mutable heap object.",
-    "level_note": "Bounds: 4 (quick) / 5 (thorough) indirections, slices of length 2, maps of one entry, `any` over {string,int64,bool,[]any,map[string]any}. "
+    "level_note": "Bounds: 4 (quick) / 6 (thorough) indirections, slices of length 2, maps of one entry, `any` over {string,int64,bool,[]any,map[string]any}. "
                   "The field list is read from go/types at run time. nil and empty collections are identified.",
-    "bounds": {"depth": "4/5 indirections", "collections": "slice length 2 (0..2 forked at top level), map 1 entry", "strings": "{a,b,c}", "ints": "[0,3]"},
+    "bounds": {"depth": "4/6 indirections", "collections": "slice length 2 (0..2 forked at top level), map 1 entry", "strings": "{a,b,c}", "ints": "[0,3]"},
     "prepare": _c18_prepare,
     "runs": _c18_runs,
 }
@@ -180,7 +180,7 @@ PROPERTIES["C04"] = {
                  ["VerifC07UserPasses", "VerifC05Rename", "VerifC05Prefix", "VerifC05Duplicate", "VerifC05Unspec", "VerifC05ReplaceReference", "VerifC05AllowedObjects"],
                  "internal/ast/compiler", needs_leaf=True, panics="violation", judge="panic", quick_entries=["VerifC07UserPasses", "VerifC05AllowedObjects", "VerifC05Duplicate"]),
              Run("orderedmap", ["./internal/orderedmap"], {"internal/orderedmap/zz_verif_c19.go": "harness/orderedmap/zz_verif_c19.go"},
-                 ["VerifC19Step", "VerifC19History", "VerifC19JSONHistory", "VerifC19JSONDocs"], "internal/orderedmap", panics="violation", judge="panic"),
+                 ["VerifC19Step", "VerifC19History", "VerifC19JSONHistory", "VerifC19JSONDocs", "VerifC19SortStability"], "internal/orderedmap", panics="violation", judge="panic"),
              Run("jsonschema_jenny", ["./internal/jennies/jsonschema"], _h(("internal/jennies/jsonschema/zz_verif_c12.go", "harness/jjsonschema/zz_verif_c12.go")),
                  ["VerifC12GenerateSchema"], "internal/jennies/jsonschema", test_pkg_name="jsonschema", needs_leaf=True, panics="violation", judge="panic"),
              Run("hast", ["./internal/zzverif/hast"], HAST_HARNESS, ["VerifC16FromAST"], "internal/zzverif/hast", test_pkg_name="hast", panics="violation", judge="panic"),
@@ -317,6 +317,9 @@ inputs:
       path: '%(verif)s/corpus/c09/widgets.json'
       package: widgets
   - jsonschema:
+      path: '%(verif)s/corpus/c08/aliases.json'
+      package: aliases
+  - jsonschema:
       path: '%(verif)s/corpus/c13/shapes.json'
       package: shapes
   - cue:
@@ -396,7 +399,8 @@ def _c08_runs(ctx):
                                                          ("constraints/zz_verif_c08_strict.go", "harness/gen/constraints/zz_verif_c08_strict.go")],
                      ["VerifC08Validate", "VerifC08StrictChild", "VerifC08StrictTop", "VerifC08StrictRoot"]),
             _gen_run(ctx, "validation", "validation", [("validation/zz_verif_c08.go", "harness/gen/validation/zz_verif_c08.go")], ["VerifC08ValidateDashboard"]),
-            _gen_run(ctx, "shapes", "shapes", [("shapes/zz_verif_c08.go", "harness/gen/shapes/zz_verif_c08.go")], ["VerifC08ValidateShapes"])]
+            _gen_run(ctx, "shapes", "shapes", [("shapes/zz_verif_c08.go", "harness/gen/shapes/zz_verif_c08.go")], ["VerifC08ValidateShapes"]),
+            _gen_run(ctx, "aliases", "aliases", [("aliases/zz_verif_c08.go", "harness/gen/aliases/zz_verif_c08.go")], ["VerifC08AliasValidate", "VerifC08AliasStrict"])]
 
 PROPERTIES["C08"] = {
     "level_text": "Two-stage, bounded symbolic execution + SMT. Stage 1 (concrete): cog's CLI is built from /repo's current tree and the REAL generator emits Go types for the corpus. "
@@ -424,7 +428,7 @@ def _c13_prepare(tmp, tier):
     os.makedirs(hdir, exist_ok=True)
     lst = os.path.join(tmp, "c13_entries.txt")
     subprocess.run([os.path.join(drv.BUILD, "symgo"), "-dir", ctx["gen"], "-gen-equals", hdir, "-gen-list", lst, "-modpath", "verifgen",
-                    "-pkgs", "./equality,./constraints,./validation,./defaults,./widgets,./shapes" + (",./slots" if os.path.isdir(os.path.join(ctx["gen"], "slots")) else "")], check=True, env=drv.ENV)
+                    "-pkgs", "./equality,./constraints,./validation,./defaults,./widgets,./shapes,./aliases" + (",./slots" if os.path.isdir(os.path.join(ctx["gen"], "slots")) else "")], check=True, env=drv.ENV)
     ctx["c13h"] = hdir
     ctx["c13"] = {}
     for l in open(lst):
@@ -493,9 +497,9 @@ PROPERTIES["C10"] = {
                   "followed by the real Go and Python pass chains: every default and constant declared by the schema must be present in the IR with the same value and a canonical dynamic "
                   "type (bool/int64/float64/string/[]any/map[string]any) at the parser's output and at the end of both chains.",
     "level_note": "In part: what a generated constructor prints is text rendered by templates (not encodable); the claim is the IR-level mechanism the property names (defaults travel as "
-                  "untyped Go values). Bounds: object of 1 (quick) / 2 (thorough) properties over 7 kinds (string/integer/number/boolean/array/enum defaults, typed and untyped constants). "
+                  "untyped Go values). Bounds: object of 1 (quick) / up to 3 (thorough) properties over 7 kinds (string/integer/number/boolean/array/enum defaults, typed and untyped constants). "
                   "CUE and OpenAPI front ends, and Go-vs-Python agreement of the emitted code, are outside the claim.",
-    "bounds": {"schema": "object with 1/2 properties x 7 kinds, defaults present or absent, Required symbolic"},
+    "bounds": {"schema": "object with 1 / 1-3 properties x 7 kinds, defaults present or absent, Required symbolic"},
     "runs": [Run("jsonschema_parser", ["./internal/jsonschema"], _h(("internal/jsonschema/zz_verif_c10.go", "harness/pjsonschema/zz_verif_c10.go")),
                  ["VerifC10JSONSchemaDefaults"], "internal/jsonschema", needs_leaf=True)],
 }
@@ -524,6 +528,7 @@ def _add_run(pid, run):
     else:
         PROPERTIES[pid]["runs"] = list(old) + [run]
 
+_add_run("C10", Run("constant_union", ["./internal/ast/compiler"], COMPILER_HARNESS, ["VerifC10ConstantUnionDefault"], "internal/ast/compiler", needs_leaf=True, judge="prefix:C10"))
 _add_run("C08", Run("openapi_constraints", ["./internal/openapi"], OPENAPI_HARNESS, ["VerifC08OpenAPIConstraints"], "internal/openapi", needs_leaf=True, judge="prefix:C08"))
 _add_run("C04", Run("yaml_types", ["./internal/yaml"], {"internal/yaml/zz_verif_c04_yaml.go": "harness/pyaml/zz_verif_c04_yaml.go"}, ["VerifC04YAMLTypes", "VerifC04YAMLVeneers"], "internal/yaml",
                     needs_leaf=True, panics="violation", judge="panic", flags=["-hangs"]))
